@@ -105,6 +105,17 @@ def jobs(tier, seed):
         for numba in (False, True):
             out.append({"name": "%s/%s" % (s["name"], "numba" if numba else "numpy"), "spec": s,
                         "numba": numba, "mode": "witness"})
+    # calculations with a thermal stage: the reported flows balance as well (two pressure zones, one of them without a
+    # temperature feeder; multi-section pipes)
+    two_zones = {"name": "w_two_zones_seq", "fluid": "water", "nj": 6, "elems": [
+        catalog.E("ext_grid", j=0, type="pt"), catalog.E("pipe", f=0, to=1, u=5.0, sections=2), catalog.E("pipe", f=1, to=2, u=5.0),
+        catalog.E("sink", j=2), catalog.E("ext_grid", j=3, type="p"), catalog.E("pipe", f=3, to=4, u=5.0),
+        catalog.E("pipe", f=4, to=5, u=5.0, sections=2), catalog.E("sink", j=5), catalog.E("sink", j=4)]}
+    for s_, m_ in ((two_zones, "sequential"), (two_zones, "bidirectional"), (catalog.w_circ_loop(), "sequential"),
+                   (catalog.w_heat_reversed(), "sequential")):
+        for numba in (False, True):
+            out.append({"name": "%s/%s/%s" % (s_["name"], m_, "numba" if numba else "numpy"), "spec": s_, "numba": numba,
+                        "mode": "witness", "pfmode": m_})
     if tier == "thorough":
         for s in specs:
             if s["nj"] <= 3:
@@ -125,7 +136,7 @@ def worker(job):
         net, names = nets.build(spec, nets.sym_valuer(), fluid=stubs.make_sym_fluid(is_gas))
         holder["names"] = names
         import pandapipes as pp
-        pp.pipeflow(net, use_numba=job["numba"], mode="hydraulics")
+        pp.pipeflow(net, use_numba=job["numba"], mode=job.get("pfmode") or "hydraulics")
         return net
 
     # dry build for names / admissibility assumptions
@@ -152,7 +163,7 @@ def worker(job):
     validated, verr = 0, []
     for pi, p in enumerate(ex.paths):
         if p.witness is not None and pi < 2:
-            n, bad = H.validate_against_impl(spec, p, dict(use_numba=job["numba"], mode="hydraulics"), is_gas)
+            n, bad = H.validate_against_impl(spec, p, dict(use_numba=job["numba"], mode=job.get("pfmode") or "hydraulics"), is_gas)
             validated += 1 if n else 0
             verr += ["encoding validation, path %d: %s" % (pi, b) for b in bad[:3]]
     for pi, p in enumerate(ex.paths):
@@ -190,7 +201,7 @@ def worker(job):
             if r == 'sat':
                 viol.append({"fingerprint": "C01/imbalance/%s" % ("global" if j == "global" else "nodal"),
                              "detail": {"job": job["name"], "junction": j, "path": pi},
-                             "replay": {"spec": spec, "numba": job["numba"], "junction": j,
+                             "replay": {"spec": spec, "numba": job["numba"], "junction": j, "pfmode": job.get("pfmode"),
                                         "values": model_inputs(m, names)}})
             elif r == 'unknown':
                 job.setdefault("_inconclusive", []).append("junction %s path %d" % (j, pi))
@@ -213,7 +224,7 @@ def replay(rs):
         if not values and worst > 1e-7:
             break
         net, _ = nets.build(spec, nets.concrete_valuer(values))
-        ok, err = concrete_pipeflow(net, use_numba=numba, mode="hydraulics", max_iter_hyd=100)
+        ok, err = concrete_pipeflow(net, use_numba=numba, mode=rs.get("pfmode") or "hydraulics", max_iter_hyd=100, max_iter_therm=100)
         numba = "%s/%s" % (numba, "model" if values else "nominal")
         if not ok:
             detail["numba=%s" % numba] = "pipeflow failed: %s" % err
